@@ -42,8 +42,8 @@ type Proxy struct {
 }
 
 func init() {
-	// table loading and retries take milliseconds instead of 5 s
-	sutredis.VerifSetSlotsRefreshTimers(2*time.Minute, 5*time.Millisecond)
+	// table loading and retries take milliseconds instead of 5 s; the periodic refresh runs every 50 ms instead of 2 min
+	sutredis.VerifSetSlotsRefreshTimers(50*time.Millisecond, 5*time.Millisecond)
 }
 
 // SetRefreshTimers overrides the proxy's slot refresh timers (period, minimum spacing).
